@@ -167,7 +167,7 @@ def _group_integrands_by_quadrature_rule(
             points = md["quadrature_points"]
             weights = md["quadrature_weights"]
             rules[cell_type] = (points, weights, None)
-        elif scheme == "vertex":
+        elif scheme == "vertex" and integral_type != "vertex":
             # The vertex scheme, i.e., averaging the function value in the
             # vertices and multiplying with the simplex volume, is only of
             # order 1 and inferior to other generic schemes in terms of
@@ -175,6 +175,9 @@ def _group_integrands_by_quadrature_rule(
             # scheme have some properties that other schemes lack, e.g., the
             # mass matrix is a simple diagonal matrix. This may be
             # prescribed in certain cases.
+
+            # (A vertex integral has a single point whatever the scheme: it
+            # takes the generic branch below.)
 
             degree = md["quadrature_degree"]
             # The rule lives on the integration entity of this integral; the
